@@ -289,6 +289,35 @@ def run(prog: Program) -> Results:
     for fnd in sub.findings:
         if fnd.rule == "R-C04-3":
             res.add("R-C09-5", fnd.key, fnd.where, fnd.message)
+    # ---------------------------------------------------------------- R-C09-8 layers are told apart by position, never by content
+    r8 = res.rule("R-C09-8", "let layers are identified by position: outside __eq__ no `==` / `!=` / `in` compares a layer's bindings "
+                  "(`layer[\"scope\"]`, `.scope`, `.local_variables`) with another's — two layers that bind the same names to the same "
+                  "values are still two layers", floor=20)
+    for f in prog.all_functions():
+        if f.name in ("__eq__", "__ne__", "__hash__") or f.module.endswith("color.py"):
+            continue
+        if not (f.module.endswith(("expression.py", "scope.py", "let.py", "manipulations.py", "resolution.py", "set.py", "source_code.py"))):
+            continue
+        r8.instances += 1
+        bad = []
+        for c in walk_no_nested(f.node):
+            if isinstance(c, ast.Compare) and len(c.ops) == 1 and isinstance(c.ops[0], (ast.Eq, ast.NotEq, ast.In, ast.NotIn)):
+                sides = [c.left, c.comparators[0]]
+
+                def is_layer_scope(e):
+                    t = norm(e)
+                    return (isinstance(e, ast.Attribute) and e.attr in ("scope", "local_variables")) or \
+                           (isinstance(e, ast.Subscript) and isinstance(e.slice, ast.Constant) and e.slice.value == "scope") or \
+                           (isinstance(e, ast.Call) and isinstance(e.func, ast.Attribute) and e.func.attr == "get" and e.args
+                            and isinstance(e.args[0], ast.Constant) and e.args[0].value == "scope")
+                if any(is_layer_scope(x) for x in sides) and not any(isinstance(x, ast.Constant) or (isinstance(x, (ast.List, ast.Tuple)) and not x.elts) for x in sides):
+                    bad.append(c)
+        r8.ob(not bad, None if not bad else {"site": f.key, "comparisons": [norm(c) for c in bad]})
+        for c in bad:
+            res.add("R-C09-8", (f.key, "layers compared by content", norm(c)[:50]), f.loc(c),
+                    f"{f.key}: `{norm(c)}` compares the bindings of two let layers by value: an inner layer whose bindings equal the "
+                    f"outermost layer's (`let debug = false; in … let debug = false; in`) is taken for a duplicate, and every selector "
+                    f"after it addresses the wrong layer")
     from sa.rules import cursor
     cursor.check(prog, res, "R-C09-7", ("cli/manipulations.py",), 4)
     res.assumptions = ["contents of the other layers' text and name shadowing across layers are runtime data"]
